@@ -31,6 +31,10 @@ Section Orc.
     if is_cmd cmd "fnmatch" then
       Some (if fn_error (s 1%nat) then A $"error" else sx_of_bool (fnmatch (s 0%nat) (s 1%nat)))
     else if is_cmd cmd "glob_match" then Some (sx_of_g2 (glob_match (s 0%nat) (s 1%nat)))
+    else if is_cmd cmd "glob_matrix" then
+      (* (glob_matrix (text ...) (pattern ...)): one row per pattern, one answer per text *)
+      let texts := map sx_str (sx_list (a 0%nat)) in
+      Some (L (map (fun p => L (map (fun t => sx_of_g2 (glob_match t p)) texts)) (map sx_str (sx_list (a 1%nat)))))
     else if is_cmd cmd "classify_token" then Some (sx_of_kind (classify_gen (sx_bool (a 1%nat)) (s 0%nat)))
     else if is_cmd cmd "norm" then Some (A (norm (s 0%nat)))
     else if is_cmd cmd "has_glob" then Some (sx_of_bool (has_glob (s 0%nat)))
